@@ -508,6 +508,27 @@ func TestVerifC12_CommitmentProof(t *testing.T) {
 			multi, func() any {
 				return map[string]any{"block": blk.Desc(), "blob_start": bl.Start, "blob_shares": bl.NumShares, "proof": c12DescribeCP(honest)}
 			})
+		// a proof emptied of every component proves nothing: it must not verify for the commitment
+		// "hash of no subtree roots" against this (or any) data root, in any of the row-range shapes
+		// an empty proof can be given
+		emptyCom := gsmerkle.HashFromByteSlices(nil)
+		for _, shape := range [][2]uint32{{honest.RowProof.StartRow, honest.RowProof.EndRow}, {honest.RowProof.EndRow + 1, honest.RowProof.EndRow}, {1, 0}, {0, 0}} {
+			e := c12CloneCP(honest)
+			e.SubtreeRoots, e.SubtreeRootProofs = nil, nil
+			e.RowProof.RowRoots, e.RowProof.Proofs = nil, nil
+			e.RowProof.StartRow, e.RowProof.EndRow = shape[0], shape[1]
+			for _, root := range [][]byte{blk.DataRoot, bytes.Repeat([]byte{0x5A}, 32)} {
+				err, pan := c12VerifyCP(e, root, emptyCom)
+				vk.Count("cp_emptied_proofs_judged", 1)
+				if pan != nil {
+					t.Fatalf("C12 commitment-proof: Verify panicked (%v) on a proof emptied of all components (rows %d..%d)", pan, shape[0], shape[1])
+				}
+				if err == nil {
+					t.Fatalf("C12 commitment-proof: a proof with no subtree roots, no subtree proofs and no rows (row range %d..%d) verified for commitment %x against data root %x: an empty proof commits to nothing",
+						shape[0], shape[1], emptyCom, root)
+				}
+			}
+		}
 		// JSON round trip of the honest proof keeps it valid
 		js, err := json.Marshal(honest)
 		if err != nil {
